@@ -11,65 +11,51 @@ From PDV Require Import lib.C10_Cluster lib.C10_StepFacts gen.Gen_C11 model.C11_
 Local Open Scope list_scope.
 Local Open Scope Z_scope.
 
-(* 1. scatter keeps every peer (same number of peers of each role, one target store per peer).
-   FALSE on the unchanged tree (suspected defect S12, replayed by the driver against the real RegionScatterer): *)
-Definition C11_scatter_preserves_roles_full : Prop :=
+(* 1. scatter keeps every peer: over all histories (counter states), all groups, all processing orders of the
+   ordinary and of the tiflash peers and all tie-breaks, the target placement has the same number of peers of
+   each role as the region, on pairwise distinct stores, and no peer ever falls back onto a store selected for
+   another peer.  (Suspected defect S12 made this false; it is proved for the code after the fix
+   "region scatter must not pick a store that holds another peer of the region".) *)
+Theorem C11_scatter_preserves_roles :
+  forall stores st grp guard r o,
+    NoDup (stores_of (peers r)) ->
+    In o (scatter_outcomes stores st grp guard r) ->
+    o_clash o = false
+    /\ Permutation (map snd (o_targets o)) (map p_role (peers r))
+    /\ NoDup (map fst (o_targets o))
+    /\ List.length (o_targets o) = List.length (peers r).
+Proof. exact scatter_preserves_roles. Qed.
+
+(* per processing order: a clash-free run carries the roles of the peers, in the order processed, on distinct stores *)
+Theorem C11_scatter_run_keeps_every_peer :
   forall stores grp guard rs e g order out,
-    NoDup (stores_of order) ->
-    In out (run_order stores grp guard false rs e g (Acc [] [] false) order) ->
-    List.length (a_targets out) = List.length order.
-
-(* witness: counters of the group {store 1: 1, store 3: 1}, three healthy stores, region on 1,2,3: targets {2,3} *)
-Theorem C11_scatter_preserves_roles_refuted : ~ C11_scatter_preserves_roles_full.
-Proof.
-  intros H.
-  assert (X : List.length (a_targets (Acc [(2, Voter); (3, Voter)] [3; 2; 2] true)) = List.length s12_peers).
-  { apply (H s12_stores 1 (fun _ _ => true) [1; 2; 3] is_ordinary s12_counters s12_peers).
-    - cbn. repeat constructor; cbn; intuition discriminate.
-    - rewrite s12_witness. left; reflexivity. }
-  cbn in X. discriminate.
-Qed.
-
-(* true for every run in which no peer falls back onto a store that was already selected for another peer
-   (the excluded class is exactly `a_clash out = true`): the targets then carry the roles of the peers, in the
-   order processed, on pairwise distinct stores *)
-Theorem C11_scatter_preserves_roles_partial :
-  forall stores grp guard fixed rs e g order out,
-    In out (run_order stores grp guard fixed rs e g (Acc [] [] false) order) ->
+    In out (run_order stores grp guard rs e g (Acc [] [] false) order) ->
     a_clash out = false ->
     map snd (a_targets out) = map p_role order /\ NoDup (map fst (a_targets out))
     /\ List.length (a_targets out) = List.length order.
 Proof. exact clash_free_keeps_every_peer. Qed.
 
-(* and true without exception for the repaired selection rule (candidates exclude the stores of the region's
-   other peers, fixes/C11_scatter_exclude_region_stores.patch): over all histories, all groups, all processing
-   orders of the ordinary and of the tiflash peers, all tie-breaks *)
-Theorem C11_scatter_fixed_preserves_roles :
-  forall stores st grp guard r o,
-    NoDup (stores_of (peers r)) ->
-    In o (scatter_outcomes true stores st grp guard r) ->
-    o_clash o = false
-    /\ Permutation (map snd (o_targets o)) (map p_role (peers r))
-    /\ NoDup (map fst (o_targets o))
-    /\ List.length (o_targets o) = List.length (peers r).
-Proof. exact scatter_fixed_preserves_roles. Qed.
-
 (* 2. peers move only to up stores: a scattered peer stays on its store or goes to a store that is up, not down,
    connected, not busy, passes the engine filter and was not selected for another peer *)
 Theorem C11_scatter_target_good :
-  forall stores grp guard fixed rs e g a p c,
-    In c (peer_choices stores grp guard fixed rs e g a p) ->
+  forall stores grp guard rs e g a p c,
+    In c (peer_choices stores grp guard rs e g a p) ->
     c = p_store p \/ (~ In c (a_selected a) /\ exists s, In s stores /\ sid s = c /\ up_store s /\ e s = true).
 Proof. exact scatter_target_good. Qed.
 
-(* balance-region / shuffle-region: every admissible target is an up store that holds no peer of the region, so
-   source and target differ *)
+(* balance-region, shuffle-region, hot-region (move peer), shuffle-hot-region, scatter-range: the StoreStateFilter literal
+   of each is {MoveRegion} (regenerated, proof/C11_Tables.v move_flags_ok); every admissible target is an up store that
+   holds no peer of the region, so source and target differ, and it is not refused by the scheduler's special-use filter *)
 Theorem C11_move_target_good :
-  forall stores r dst,
-    In dst (move_targets Gen_C11.balance_region_target_flags stores r) ->
-    In dst stores /\ ~ In (sid dst) (stores_of (peers r)) /\ up_store dst /\ special_use dst = false
+  forall flags su stores r dst,
+    In flags [Gen_C11.balance_region_target_flags; Gen_C11.shuffle_region_flags; Gen_C11.hot_move_flags; Gen_C11.shuffle_hot_flags] ->
+    In dst (move_targets flags su stores r) ->
+    In dst stores /\ ~ In (sid dst) (stores_of (peers r)) /\ up_store dst /\ su dst = false
     /\ (forall src, In src (stores_of (peers r)) -> src <> sid dst).
-Proof. exact move_target_good. Qed.
+Proof.
+  intros flags su stores r dst Hf. apply move_target_good.
+  destruct move_flags_ok as (E1 & E2 & _ & E3 & E4). cbn in Hf. intuition congruence.
+Qed.
 
 (* moving the peer of `src` to such a store keeps the number of peers of every role, one peer per store, src <> dst *)
 Theorem C11_move_preserves_roles :
@@ -81,13 +67,25 @@ Theorem C11_move_preserves_roles :
     /\ src <> dst.
 Proof. exact move_preserves_roles. Qed.
 
-(* 3. leaders only to voters on stores that accept leaders (balance-leader, shuffle-leader, evict-leader, label) *)
+(* 3. leaders only to voters on stores that accept leaders (balance-leader, shuffle-leader, evict-leader, label,
+   hot-region transfer-leader, scatter-range) *)
 Theorem C11_leader_target_good :
-  forall stores r dst,
-    In dst (leader_targets Gen_C11.balance_leader_flags stores r) ->
+  forall flags stores r dst,
+    In flags [Gen_C11.balance_leader_flags; Gen_C11.shuffle_leader_flags; Gen_C11.evict_leader_flags; Gen_C11.label_flags; Gen_C11.hot_leader_flags] ->
+    In dst (leader_targets flags stores r) ->
     (exists p, In p (peers r) /\ p_store p = sid dst /\ is_learner p = false)
     /\ sid dst <> leader_store r /\ up_store dst /\ s_pause dst = false /\ s_reject dst = false.
-Proof. exact leader_target_good. Qed.
+Proof.
+  intros flags stores r dst Hf. apply leader_target_good.
+  destruct leader_flags_ok as (E1 & E2 & E3 & E4 & E5). cbn in Hf. intuition congruence.
+Qed.
+
+(* grant-leader applies no store filter (forced transfer): the new leader is still a voter of the region on another
+   store; that the store accepts leaders does NOT hold (finding C11:grant-leader:leader-to-store-rejecting-leaders) *)
+Theorem C11_forced_leader_target :
+  forall stores r dst, In dst (leader_targets [] stores r) ->
+    (exists p, In p (peers r) /\ p_store p = sid dst /\ is_learner p = false) /\ sid dst <> leader_store r.
+Proof. exact forced_leader_target. Qed.
 
 (* 4. at most one peer per store is an invariant of every step sequence TiKV accepts (used by the monitor on
    every operator the implementation returned) *)
@@ -112,20 +110,18 @@ Proof.
   - vm_compute in Hx. inversion Hx; subst. discriminate.
 Qed.
 
-(* non-vacuity: the S12 input loses a replica under the code as it is and keeps all three under the repaired rule *)
-Example C11_nonvacuous :
-  map a_targets (run_order s12_stores 1 (fun _ _ => true) false [1; 2; 3] is_ordinary s12_counters (Acc [] [] false) s12_peers)
-    = [[(2, Voter); (3, Voter)]]
-  /\ map a_targets (run_order s12_stores 1 (fun _ _ => true) true [1; 2; 3] is_ordinary s12_counters (Acc [] [] false) s12_peers)
+(* regression / non-vacuity: the S12 history (counters {1:1, 3:1}, region on 1,2,3) now keeps all three peers *)
+Example C11_s12_regression :
+  map a_targets (run_order s12_stores 1 (fun _ _ => true) [1; 2; 3] is_ordinary s12_counters (Acc [] [] false) s12_peers)
     = [[(1, Voter); (2, Voter); (3, Voter)]].
-Proof. split; vm_compute; reflexivity. Qed.
+Proof. vm_compute. reflexivity. Qed.
 
-Print Assumptions C11_scatter_preserves_roles_refuted.
-Print Assumptions C11_scatter_preserves_roles_partial.
-Print Assumptions C11_scatter_fixed_preserves_roles.
+Print Assumptions C11_scatter_preserves_roles.
+Print Assumptions C11_scatter_run_keeps_every_peer.
 Print Assumptions C11_scatter_target_good.
 Print Assumptions C11_move_target_good.
 Print Assumptions C11_move_preserves_roles.
 Print Assumptions C11_leader_target_good.
+Print Assumptions C11_forced_leader_target.
 Print Assumptions C11_one_peer_per_store.
 Print Assumptions C11_scatter_leader_accepts_leaders_refuted.
